@@ -555,37 +555,7 @@ def run(repo, rep, tier):
                         'special', TYP, br.lineno,
                         'NaN / INF / -INF spelling not handled for %s'
                         % tname)
-        # printer language of the branch (shape analysis, pwsa/strlang.py):
-        # every output shape must be in the reader's language (float(), used
-        # by unpack_numeric) and in the DSP0201 real syntax
-        from .. import strlang as SL
-        try:
-            spec_, outs = SL.outputs(list(br.body))
-        except SL.Unsupported as exc:
-            r9.undecided.append('%s: %s' % (tname, exc))
-            outs = []
-        for tin, tout in outs:
-            r9.sites += 1
-            smp = SL.samples(tout)
-            bad_f = [x for x in smp if not SL.FLOAT_DOMAIN.fullmatch(x)]
-            bad_d = [x for x in smp if not SL.DSP0201_REAL.fullmatch(x)]
-            ok = not bad_f and not bad_d
-            r9.ob(ok, 'atomic:%s:%s' % (tname, SL.show(tin)),
-                  {'type': tname, 'formatted_shape': SL.show(tin),
-                   'written_shape': SL.show(tout)})
-            if not ok:
-                rep.finding(
-                    r9, atom.qualname, '%s: %s -> %s' % (
-                        tname, SL.show(tin), SL.show(tout)),
-                    'not-readable' if bad_f else 'not-dsp0201', TYP,
-                    br.lineno,
-                    'a %s that the format writes as %s leaves the function '
-                    'as %s (e.g. %r), which %s'
-                    % (tname, SL.show(tin), SL.show(tout),
-                       (bad_f or bad_d)[0],
-                       'float() / unpack_numeric cannot read back' if bad_f
-                       else 'is not a DSP0201 real value (a digit must '
-                       'follow the decimal point)'))
+        real_shapes_of_branch(rep, r9, atom, tname, br)
         # string surgery on the formatted number keys on the exponent marker
         # alone: the G/E/g/e format writes 'E+NN' as well as 'E-NN', so a
         # separator such as 'E+' handles only one of the two signs
@@ -616,6 +586,75 @@ def run(repo, rep, tier):
     _r10_seconds_with_days(repo, rep)
     _r11_fixed_width_fields(repo, rep)
     _r12_no_equality_test_on_reals(repo, rep)
+
+
+def real_shapes_of_branch(rep, r9, atom, tname, br):
+    """printer language of one isinstance branch of atomic_to_cim_xml (shape
+    analysis, pwsa/strlang.py): every output shape must be in the reader's
+    language (float(), used by unpack_numeric) and in the DSP0201 real
+    syntax"""
+    from .. import strlang as SL
+    try:
+        spec_, outs = SL.outputs(list(br.body))
+    except SL.Unsupported as exc:
+        r9.undecided.append('%s: %s' % (tname, exc))
+        outs = []
+    for tin, tout in outs:
+        r9.sites += 1
+        smp = SL.samples(tout)
+        bad_f = [x for x in smp if not SL.FLOAT_DOMAIN.fullmatch(x)]
+        bad_d = [x for x in smp if not SL.DSP0201_REAL.fullmatch(x)]
+        ok = not bad_f and not bad_d
+        r9.ob(ok, 'atomic:%s:%s' % (tname, SL.show(tin)),
+              {'type': tname, 'formatted_shape': SL.show(tin),
+               'written_shape': SL.show(tout)})
+        if not ok:
+            rep.finding(
+                r9, atom.qualname, '%s: %s -> %s' % (
+                    tname, SL.show(tin), SL.show(tout)),
+                'not-readable' if bad_f else 'not-dsp0201', TYP,
+                br.lineno,
+                'a %s that the format writes as %s leaves the function '
+                'as %s (e.g. %r), which %s'
+                % (tname, SL.show(tin), SL.show(tout),
+                   (bad_f or bad_d)[0],
+                   'float() / unpack_numeric cannot read back' if bad_f
+                   else 'is not a DSP0201 real value (a digit must '
+                   'follow the decimal point)'))
+
+
+def real_shapes_rule(repo, rep, r9):
+    """C06.R9 as a rule of its own (also C04.R15: a real value is sent - on
+    both sides of the wire - by atomic_to_cim_xml() and read back by
+    unpack_numeric(); text such as `1E+22.0` makes the reader of the other
+    side fail, so the same call succeeds directly and raises over CIM-XML):
+    for the Real32 / Real64 / float branches of atomic_to_cim_xml (private
+    helpers inlined) every shape the formatting can produce is readable."""
+    from ..inline import Flat
+    atom = Flat(repo.func(TYP, 'atomic_to_cim_xml'))
+    chain = []
+    cur = next((s_ for s_ in atom.body if isinstance(s_, ast.If)), None)
+    while cur is not None:
+        chain.append(cur)
+        cur = cur.orelse[0] if len(cur.orelse) == 1 and \
+            isinstance(cur.orelse[0], ast.If) else None
+    done = 0
+    for br in chain:
+        t = br.test
+        if not (isinstance(t, ast.Call) and dotted(t.func) == 'isinstance'
+                and len(t.args) == 2):
+            continue
+        tt = t.args[1]
+        names_ = [norm(e) for e in (tt.elts if isinstance(tt, ast.Tuple)
+                                    else [tt])]
+        for tname in names_:
+            if tname in ('Real32', 'Real64', 'float'):
+                done += 1
+                real_shapes_of_branch(rep, r9, atom, tname, br)
+    r9.functions.add(atom.fq)
+    if done < 2:
+        raise AnalysisError('atomic_to_cim_xml: the real-number branches '
+                            'were not found')
 
 
 def _r8_exact_fields(repo, rep, rid='C06.R8'):
